@@ -550,6 +550,7 @@ def run_case(case):
         res["violations"].append(v)
     c.update({k: v for k, v in contracts.counters().items() if k.startswith(("H1", "H7"))})
     res["nontrivial"] = True
+    res["evaluated"] = sum(c.get(k_, 0) for k_ in ("A.affines", "B.gradients", "C.decompositions", "D.from_ot_checked", "E.svg_gradients_checked", "F.builds"))
     if case["i"] < 1:
         res["sample"] = {"affines": [gen_affine(common.rng("sample", i)) for i in range(6)]}
     return res
